@@ -443,7 +443,8 @@ func mayAuth(c *Conn) bool {
 //@   ensures[C06] old(c.enabled) != nil ==> c.enabled != nil
 
 //@ func (c *Conn) handleSelect(tag string, dec *imapwire.Decoder, readOnly bool) (err error)
-//@   props C04:post,pre@call
+//@   props C04:post,pre@call C02:callsite
+//@   callsite[C02] Session.Select(s Session, mailbox string, options *imap.SelectOptions) requires mailbox == __resultStr("Decoder.ExpectMailbox", 101) && options.ReadOnly == readOnly
 //@   requires tag != ""
 //@   ensures err == nil ==> __ghost("tagged") == old(__ghost("tagged"))+1
 //@   ensures err != nil ==> __ghost("tagged") == old(__ghost("tagged")) || __failed("Conn.writeStatusResp")
@@ -662,6 +663,8 @@ func isStartTLSConn(conn net.Conn) bool {
 //@ func (c *Conn) handleAppend(tag string, dec *imapwire.Decoder) (err error)
 //@   props C04:post,pre@call,callsite C06:callsite
 //@   callsite Session.Append requires __result("LiteralReader.Size") <= appendLimit
+//@   props C02:callsite
+//@   callsite[C02] Session.Append(s Session, mailbox string, r imap.LiteralReader, options *imap.AppendOptions) requires mailbox == __resultStr("Decoder.ExpectMailbox", 101)
 //@   callsite io.Copy(dst io.Writer, src io.Reader) requires __resultBool("Decoder.ExpectLiteralReader", 1) || (__called("Conn.acceptLiteral") && !__failed("Conn.acceptLiteral"))
 //@   requires tag != ""
 //@   ensures err == nil ==> __ghost("tagged") == old(__ghost("tagged"))+1
@@ -673,7 +676,8 @@ func isStartTLSConn(conn net.Conn) bool {
 //@   ensures err == nil ==> __called("Decoder.ExpectCRLF") && !__failed("Session.Append")
 
 //@ func (c *Conn) handleCopy(tag string, dec *imapwire.Decoder, numKind NumKind) (err error)
-//@   props C04:post,pre@call
+//@   props C04:post,pre@call C02:callsite
+//@   callsite[C02] Session.Copy(s Session, numSet imap.NumSet, dest string) requires dest == __resultStr("readCopy", 1)
 //@   requires tag != ""
 //@   ensures err == nil ==> __ghost("tagged") == old(__ghost("tagged"))+1
 //@   ensures err != nil ==> __ghost("tagged") == old(__ghost("tagged")) || __failed("Conn.writeCopyOK")
@@ -1012,3 +1016,13 @@ func matchListSpec(name string, delim rune, reference, pattern string) bool {
 //@ func (c *Conn) handleStatus(dec *imapwire.Decoder) (err error)
 //@   props C02:callsite
 //@   callsite Session.Status(s Session, mailbox string, options *imap.StatusOptions) requires mailbox == __resultStr("Decoder.ExpectMailbox", 101)
+
+// SELECT / EXAMINE, APPEND, COPY and MOVE: the same for their mailbox argument.
+//
+//@ func readCopy(numKind NumKind, dec *imapwire.Decoder) (numSet imap.NumSet, dest string, err error)
+//@   props C02:post
+//@   ensures err == nil ==> dest == __resultStr("Decoder.ExpectMailbox", 101)
+
+//@ func (c *Conn) handleMove(dec *imapwire.Decoder, numKind NumKind) (err error)
+//@   props C02:callsite
+//@   callsite[C02] SessionMove.Move(s SessionMove, w *MoveWriter, numSet imap.NumSet, dest string) requires dest == __resultStr("readCopy", 1)
